@@ -45,7 +45,7 @@ LEVEL_NOTE = (
     "Programs do not inspect captured text (no size/comparison of captures); 'whitespace' is str.isspace(); the exact "
     "(character for character) oracle is applied to literal-only programs here and to all model programs in C01."
 )
-TECHNIQUE = "bounded-exhaustive enumeration of the whitespace-control marker cube x configurations with a whitespace-insensitive differential oracle"
+TECHNIQUE = "bounded-exhaustive enumeration of the whitespace-control marker cube x configurations with a whitespace-insensitive differential oracle + all two-environment load histories over one shared caching loader"
 ASSUMPTIONS = ["whitespace = characters for which str.isspace() is true (the set str.strip() removes)"]
 
 MARKS = ("", "-", "~", "+")
